@@ -4,7 +4,7 @@
    FIN/RSV/opcode/mask combination, every length form, every payload - in every reassembly state, both roles,
    compression negotiated or not.  The UTF-8 validator, the inflater and the LZ77 window are parameters. *)
 From Gws Require Import Lib.Base Spec.MaskSpec Spec.Rfc6455 Spec.Rfc6455Recv Model.Header Model.CloseCode Model.Reader
-  Proofs.FrameProofs Proofs.ReaderProofs Proofs.ReaderRefine.
+  Proofs.FrameProofs Proofs.ReaderProofs Proofs.ReaderRefine Proofs.FragmentProofs.
 Local Open Scope N_scope.
 
 Section C03.
@@ -45,6 +45,24 @@ Proof.
   intros c sst f m Hv Hop. unfold Rfc6455Recv.recv_frame. rewrite Hv.
   destruct Hop as [-> | ->]; cbn; eexists; reflexivity.
 Qed.
+
+(* ... and the whole-message form of that clause, for the reader model itself: a message sent as a first frame, any
+   number of continuation frames and a final frame - any fragment boundaries, length forms and masking keys - with any
+   ping/pong frames in between, read from an idle reader: the ping/pong callbacks come in wire order, and the message is
+   treated exactly as `complete` treats the CONCATENATED payload (inflated when compressed, checked, delivered once). *)
+Theorem C03_fragmented_message : forall c st fuel comp op lf0 k0 p0 cs0 mids lfl kl pl,
+  limit_ok c -> cf_init W st = false ->
+  (op = 1 \/ op = 2) -> (comp = true -> r_pmd c = true) ->
+  Forall (ctl_ok (scfg_of c)) cs0 -> Forall (fun m => Forall (ctl_ok (scfg_of c)) (midw_ctls m)) mids ->
+  let wire := message_wire (r_server c) comp op lf0 k0 p0 cs0 mids lfl kl pl in
+  let payload := p0 ++ concat (map midw_payload mids) ++ pl in
+  Forall sendable wire -> (Z.of_nat (length payload) <= r_limit c)%Z -> (length (enc_stream wire) < fuel)%nat ->
+  refines_run utf8_valid W c
+    (map ctl_event (cs0 ++ flat_map midw_ctls mids)
+       ++ fst (as_run W (complete utf8_valid inflate W wdict wwrite (scfg_of c) (r_dps W st) op comp payload)),
+     snd (as_run W (complete utf8_valid inflate W wdict wwrite (scfg_of c) (r_dps W st) op comp payload)))
+    (read_stream utf8_valid inflate W wdict wwrite fuel c st (enc_stream wire)).
+Proof. exact (reader_fragmented_message utf8_valid inflate W wdict wwrite). Qed.
 End C03.
 
 (* the reader is a function of the byte string alone: how the bytes are cut into network reads cannot matter in the
@@ -73,3 +91,4 @@ Qed.
 Print Assumptions C03_frame_refines.
 Print Assumptions C03_stream_refines.
 Print Assumptions C03_control_inside_fragments.
+Print Assumptions C03_fragmented_message.
